@@ -48,7 +48,10 @@ theorem send_src_ok {env : Env} {mon : Expr} {s : Source} {dst : Dest} {st st' :
           have ok := SendOK.ofFinish (st0 := st) (t.nonneg hn0) fin rfl
           rw [t.assetR] at ok
           refine ⟨m.1, total r.parts, new, total rem, ?_, ok⟩
-          rw [hm]; cases m; simp_all
+          rw [hm]
+          obtain ⟨m1, m2⟩ := m
+          simp only at e
+          rw [e]
 
 /-- `send [A *] (source = <source> …)`: the postings are in the funding's asset,
     non-negative, and sum to everything the sources made available minus what was
@@ -157,10 +160,12 @@ theorem send_allot_ok {env : Env} (henv : EnvGood env) {ds : Decls} {mon : Expr}
               rw [htot, hasset] at ok
               refine ⟨m.1, amt, new, total rem, ?_, ok⟩
               rw [hm]
-              have : m.2 = some amt := by
+              have h2 : m.2 = some amt := by
                 cases hm2 : m.2 with
                 | none => simp [hm2, needAmt] at hamt
                 | some v => simp [hm2, needAmt] at hamt; simp [hamt]
-              cases m; simp_all
+              obtain ⟨m1, m2⟩ := m
+              simp only at h2
+              rw [h2]
 
 end Ledger.Machine
